@@ -45,7 +45,10 @@ CLAIM = dict(
     "CORRECTIONS: save / load (incl. _init_from_config, no-argument constructor of the generic reader) of the five savable "
     "corrections as functions on their state over abstract values: reload_equiv - the state correct_array depends on is the "
     "same after save -> read_correction, for every state the class's own initialisation produces "
-    "(drift_init_establishes_inv); curvature_before_fix_loses_order (the interpolation order is part of that state; a "
+    "(drift_init_establishes_inv); for CurvatureCorrection additionally the PERSISTED grid cache with its invalidation rule: "
+    "the cache always holds the grid of the object's own configuration, so the reloaded object samples inputs of any shape "
+    "with the same grid as the original (curv_output_independent_of_cache; oracle: inputs of another shape after reload); "
+    "curvature_before_fix_loses_order (the interpolation order is part of that state; a "
     "defect found with this model and fixed). Caches are memoisation and not part of the state. "
     "Ties: correction field provenance (the model on symbolic values says which attribute each saved field comes from and "
     "which field / default / derived value each attribute is rebuilt from; every pair is verified on a real object, its real "
@@ -54,8 +57,11 @@ CLAIM = dict(
     "imwrite, PNG / TIFF codecs, skimage dtype conversion - the bit-identical round trips (images over the whole metadata "
     "space, 8/16-bit grey / single-channel / colour byte strings, optical write -> imread, the five savable corrections with "
     "random configurations; every one of the five must be round-tripped in most of its cases, otherwise a mark) are "
-    "observed by the oracle only. Attribute provenance of the corrections (correct_reads_are_restored, "
-    "load_restores_used_state) is syntactic (AST, branches not distinguished). The single-channel row of the kind rule "
+    "observed by the oracle only. Attribute provenance of the corrections (syntactic, AST): "
+    "correct_reads_are_restored - every attribute correct_array reads is stored by load, or is a constructor CONSTANT (not "
+    "derived from any constructor parameter: translation_estimator, the empty cache), or one of two listed exceptions "
+    "(use_cache / cache_path of CurvatureCorrection: where the memoised grid is kept); a constructor-configurable attribute "
+    "that load forgets is rejected (this fails on the tree before the interpolation_order fix); load_restores_used_state. The single-channel row of the kind rule "
     "((h, w, 1) decoded arrays) is reached only through the patched decoder (cv2.imdecode never returns that shape). Outside "
     "the literal statement and NOT preserved: OpticalImage.original_dtype is not part of metadata(); an image converted to "
     "float after construction reloads with original_dtype = float, so a later write() of the reloaded object raises "
@@ -146,8 +152,50 @@ def attr_provenance(cls, base_cls):
                     out.add(n.attr)
         return sorted(out)
 
+    def configurable():
+        """attributes the constructor derives from its parameters / kwargs (directly, through other such attributes, or
+        under a condition on them): state a user can choose at construction"""
+        ms = closure("__init__")
+        if "__init__" not in methods:
+            return []
+        params = {a.arg for m in ms for a in methods[m].args.args + methods[m].args.kwonlyargs if a.arg != "self"}
+        params |= {methods[m].args.kwarg.arg for m in ms if methods[m].args.kwarg}
+        tainted = set()
+
+        def mentions(e):
+            for n in ast.walk(e):
+                if isinstance(n, ast.Name) and n.id in params:
+                    return True
+                if isinstance(n, ast.Attribute) and isinstance(n.value, ast.Name) and n.value.id == "self" and n.attr in tainted:
+                    return True
+            return False
+
+        def visit(stmts, ctl):
+            for st in stmts:
+                if isinstance(st, (ast.If, ast.While)):
+                    c2 = ctl or mentions(st.test)
+                    visit(st.body, c2)
+                    visit(st.orelse, c2)
+                elif isinstance(st, (ast.For, ast.With, ast.Try)):
+                    for blk in ("body", "orelse", "finalbody"):
+                        visit(getattr(st, blk, []) or [], ctl)
+                elif isinstance(st, (ast.Assign, ast.AnnAssign, ast.AugAssign)):
+                    targets = st.targets if isinstance(st, ast.Assign) else [st.target]
+                    val = st.value
+                    for t in targets:
+                        hot = ctl or (val is not None and mentions(val))
+                        if isinstance(t, ast.Attribute) and isinstance(t.value, ast.Name) and t.value.id == "self" and hot:
+                            tainted.add(t.attr)
+                        elif isinstance(t, ast.Name) and hot:
+                            params.add(t.id)  # a local derived from a parameter
+
+        for _ in range(4):  # fixpoint over attribute-to-attribute flow
+            for m in ms:
+                visit(methods[m].body, False)
+        return sorted(tainted)
+
     return dict(reads=attrs(closure("correct_array"), ast.Load), restored=attrs(closure("load"), ast.Store),
-                init=attrs(closure("__init__"), ast.Store))
+                init=attrs(closure("__init__"), ast.Store), configurable=configurable())
 
 
 def popped_kwargs(cls):
@@ -270,7 +318,7 @@ def tabulate(d, tmp):
                               resolvable=hasattr(rc, name), inUnion=name in union,
                               defaultConstructible=not isinstance(quiet(obj), Raised) if impl else False,
                               saved=saved_f, loaded=loaded_f if impl else [],
-                              **(attr_provenance(obj, d.BaseCorrection) if impl else dict(reads=[], restored=[], init=[])))
+                              **(attr_provenance(obj, d.BaseCorrection) if impl else dict(reads=[], restored=[], init=[], configurable=[])))
     t["corr"] = corr
     return t
 
@@ -318,10 +366,10 @@ def emit(t):
         L.append(f"def {tab} : Corr → List Field")
         for n in names:
             L.append(f"  | .{n} => " + llist(t["corr"][n][tab], lambda f: "." + f))
-    cattrs = sorted({a for c in t["corr"].values() for k in ("reads", "restored", "init") for a in c[k]})
+    cattrs = sorted({a for c in t["corr"].values() for k in ("reads", "restored", "init", "configurable") for a in c[k]})
     L.append("inductive CAttr" + "".join(f" | a_{a}" for a in cattrs) + (" | a_none" if not cattrs else ""))
     L.append("  deriving DecidableEq, Repr")
-    for tab, nm in (("reads", "correctReads"), ("restored", "loadStores"), ("init", "initStores")):
+    for tab, nm in (("reads", "correctReads"), ("restored", "loadStores"), ("init", "initStores"), ("configurable", "ctorConfigurable")):
         L.append(f"def {nm} : Corr → List CAttr")
         for n in names:
             L.append(f"  | .{n} => " + llist(t["corr"][n][tab], lambda a: ".a_" + a))
@@ -713,6 +761,15 @@ def oracle_corrections(ctx, d, tmp, table=None):
                 if not (hasattr(c2, attr) and deep_equal(v, getattr(c2, attr))):
                     ctx.fail(f"C18:correction({name}):attribute({attr})", f"attribute {attr} of the reloaded correction differs: "
                              f"{v!r} vs {getattr(c2, attr, '<missing>')!r}"[:400], case)
+            if name in ("CurvatureCorrection", "TypeCorrection") and np.asarray(arr).shape[0] > 20:
+                # an input of ANOTHER shape than the one the (persisted) grid cache was computed for
+                arr2 = np.ascontiguousarray(arr[5:-7, 3:-11])
+                o1, o2 = quiet(apply_corr, c, arr2), quiet(apply_corr, c2, arr2)
+                if not isinstance(o1, Raised) and (isinstance(o2, Raised) or np.asarray(o1).shape != np.asarray(o2).shape
+                                                   or not np.array_equal(np.asarray(o1), np.asarray(o2))):
+                    ctx.fail(f"C18:correction({name}):output-differs(other-input-shape)",
+                             "after reload the correction treats an input of another shape differently from the original",
+                             dict(case, other_shape=list(arr2.shape)))
             if isinstance(after, Raised):
                 ctx.fail(f"C18:correction({name}):reloaded-raises-{type(after.exc).__name__}", f"the reloaded correction raises {after.exc!r}", case)
             elif np.asarray(after).shape != np.asarray(before).shape or np.asarray(after).dtype != np.asarray(before).dtype or \
@@ -722,6 +779,9 @@ def oracle_corrections(ctx, d, tmp, table=None):
                          dict(case, max_dev=dev))
     ctx.cov["corrections"] = stats
     for name, st in stats.items():
+        if st["not_repeatable"]:
+            ctx.mark("ORACLE-VACUOUS", {"correction": name, **st, "meaning": "repeated application of the SAME object differs: "
+                                        "persistence could not be judged for these cases"})
         # every named correction must actually have been round-tripped, in most of its cases: a class that always raises,
         # cannot be constructed or jitters is REPORTED, not silently dropped from the persistence check
         skipped = st["not_constructible"] + st["unusable_configuration"] + st["not_repeatable"]
@@ -888,10 +948,51 @@ def deep_equal_loose(x, y):
 
 
 def replay(data):
-    print("property C18 replay")
-    for k in ("signature", "what"):
-        print(f"  {k}: {data.get(k)}")
-    print("  input:", data.get("replay"))
+    """re-execute the stored case on the implementation: the failing case is regenerated deterministically from the stored
+    seed and tier (the whole generation stream of that tier is replayed, Lean proofs are skipped), the oracle is evaluated
+    again and the observed outcome is printed next to the stored one. Exit code 1 = reproduced, 0 = not reproduced."""
+    import shutil
+
+    from ..lib import core
+
+    sig = data.get("signature")
+    rep = data.get("replay") or {}
+    print(f"property C18 replay")
+    print(f"  stored signature: {sig}")
+    print(f"  stored finding  : {data.get('what')}")
+    if "verif_seed" not in rep:
+        print("  no failing input stored (proof / tie / correspondence break):", [m.get("kind") for m in data.get("no_longer_checks", data.get("marks", []))])
+        return 0
+    print(f"  stored input    : { {k: v for k, v in rep.items() if k not in ('before', 'after')} }")
+
+    class RCtx(core.Ctx):
+        def prove(self, *a, **k):  # the Lean side is not part of a replay
+            pass
+
+        def write_gen(self, *a, **k):
+            return False
+
+        def log(self, *a):
+            pass
+
+    ctx = RCtx("C18", rep.get("tier", "quick"), int(rep["verif_seed"]), LEVEL)
+    try:
+        run(ctx)
+    finally:
+        shutil.rmtree(ctx._tmp, ignore_errors=True)
+    hits = [f for f in ctx.failures if f["signature"] == sig] + [h for h in ctx.known_hits if h["signature"] == sig]
+    if hits:
+        h = hits[0]
+        print("  REPRODUCED on the current implementation:")
+        print(f"    observed: {h.get('what')}")
+        if "replay" in h:
+            print(f"    input   : { {k: v for k, v in h['replay'].items() if k not in ('before', 'after')} }")
+            for k in ("before", "after", "observed", "required"):
+                if k in h["replay"]:
+                    print(f"    {k:8}: {str(h['replay'][k])[:300]}")
+        return 1
+    others = sorted({f["signature"] for f in ctx.failures})
+    print("  not reproduced on the current implementation (the required behaviour holds for the regenerated case)" + (f"; other failures now: {others[:5]}" if others else ""))
     return 0
 
 
